@@ -11,7 +11,16 @@ Definition GOLD : N := 11400714819323198485.   (* 0x9E3779B97F4A7C15 *)
 Definition GOLD2 : N := 13787848793156543929.  (* 0xBF58476D1CE4E5B9 *)
 Definition SEEDC : N := 1311768467463790320.   (* 0x123456789ABCDEF0 *)
 
-Definition mix (x v : N) : N := rotl64 (u64 (N.lxor x v * GOLD)) 23.
+(* 64-bit mixing step, built from shifts, xors and one addition only (cheap to evaluate on binary numbers):
+   xorshift64 of (x xor v), plus the golden-ratio constant, modulo 2^64 *)
+Definition MASK64 : N := 18446744073709551615.
+Definition m64 (x : N) : N := N.land x MASK64.
+Definition mix (x v : N) : N :=
+  let a := N.lxor x v in
+  let b := N.lxor a (m64 (N.shiftl a 13)) in
+  let c := N.lxor b (N.shiftr b 7) in
+  let d := N.lxor c (m64 (N.shiftl c 17)) in
+  m64 (d + GOLD).
 
 Record outspec := mkOut { o_rule : N; o_arg : N; o_dt : N; o_type : N; o_size : N }.
 Record row := mkRow { r_draws : list N; r_mem : list (N * N * N); r_outs : list outspec }.
@@ -35,7 +44,7 @@ Record event := mkEv { e_dest : N; e_t : N; e_type : N; e_pl : list N }.
 
 (* ---- payload bytes produced for output j from accumulator a ---- *)
 Fixpoint bytes_le (n : nat) (x : N) : list N :=
-  match n with O => [] | S k => x mod 256 :: bytes_le k (x / 256) end.
+  match n with O => [] | S k => N.land x 255 :: bytes_le k (N.shiftr x 8) end.
 
 Fixpoint payload_words (k : nat) (a base : N) : list N :=
   match k with O => [] | S k' => bytes_le 8 (mix a base) ++ payload_words k' a (base + 1) end.
@@ -47,7 +56,7 @@ Definition make_payload (a j sz : N) : list N :=
 Fixpoint word_of (bs : list N) (n : nat) : N :=
   match n with
   | O => 0
-  | S k => match bs with [] => 0 | b :: r => b + 256 * word_of r k end
+  | S k => match bs with [] => 0 | b :: r => N.lor b (N.shiftl (word_of r k) 8) end
   end.
 
 Fixpoint digest_words (fuel : nat) (a : N) (bs : list N) : N :=
